@@ -110,7 +110,7 @@ def _unflatten(_, xs):
 
 jax.tree_util.register_pytree_node(
     BlockArray,
-    lambda xs: (xs, None),  # to iter
+    lambda xs: (xs.arrays, None),  # to iter (the blocks themselves: indexing would wrap non-array leaves)
     _unflatten,  # from iter
 )
 
